@@ -224,9 +224,28 @@ def prepare_module(rng, mod, p_tag=0.35):
             for m, n in zip(members_of(t), nums):
                 m['tag'] = ('', n, '' if library_forces_explicit(rt_of, m['t']) else rng.choice(['', '', 'IMPLICIT', 'EXPLICIT']))
             assert legal_components(mod, rt_of, t)
-    for _, t in mod['types']:
-        walk_types(t, legalise)
+    # children first: re-tagging the alternatives of an inner untagged CHOICE changes the tag set of the component
+    # that holds it; repeat until nothing changes (named types can refer to each other)
+    def post(t):
+        k = t['k']
+        if k in ('SEQUENCE', 'SET', 'CHOICE'):
+            for m in members_of(t):
+                post(m['t'])
+        elif k in ('SEQUENCE OF', 'SET OF'):
+            post(t['elem'])
+        legalise(t)
+    for _ in range(4):
+        for _, t in mod['types']:
+            post(t)
+        if all(legal_components(mod, rt_of, x) for _, t in mod['types'] for x in _constructed(t)):
+            break
     return mod
+
+
+def _constructed(t):
+    out = []
+    walk_types(t, lambda x: out.append(x) if x['k'] in ('SEQUENCE', 'SET', 'CHOICE') else None)
+    return out
 
 
 def generate(rng, opts=None, name='M'):
